@@ -100,7 +100,7 @@ class C14(Harness):
     def cells(self, tier):
         names = ["padding", "padding-int", "truncation", "paa", "tabularizer", "concatenator", "interval-int", "interval-array", "sliding", "features", "row", "row-mean", "slope", "cosine", "adaptor"]
         out = [{"name": n, "kind": n, "cost": 2} for n in names]
-        for m in ("ffill", "bfill", "constant", "mean", "median", "linear"):
+        for m in ("ffill", "bfill", "pad", "backfill", "constant", "mean", "median", "linear"):  # ("pad" / "backfill": the documented aliases)
             out.append({"name": "imputer-" + m, "kind": "imputer", "method": m, "cost": 1})
         out.append({"name": "interpolator", "kind": "interpolator", "cost": 2})
         out.append({"name": "acf", "kind": "acf", "cost": 2})
@@ -411,7 +411,7 @@ class C14(Harness):
             known = [i for i in range(n) if not is_nan(z[i])]
             vals = out["vals"]
             P.check("rows-in-input-order", len(vals) == n and out["idx"] == list(range(n)))
-            m = cell["method"]
+            m = {"pad": "ffill", "backfill": "bfill"}.get(cell["method"], cell["method"])
             for i in range(n):
                 if not is_nan(z[i]):
                     P.eq("imputer-rule", vals[i], z[i])
